@@ -350,6 +350,19 @@ CLAIMED = {
             'Assumes the PSLQ invariant "y[i] is the residual of column i of B" (maintained by the '
             'iteration, not decided).',
             'DESIGN.md section 10 (C35)'),
+    'C09': ('V-float-conversion',
+            'static analysis: constant-agreement rules inside from_float / from_npfloat / to_float, call-site '
+            'rule over every float conversion in the context layer, wiring rules for float() and complex()',
+            'Clause: the constants and wiring that make the conversions exact - from_float rebuilds m*2**e with '
+            'the same power K >= 53 in mantissa and exponent and defaults to a precision that keeps all 53 bits; '
+            'nan/inf are mapped before the decomposition with the right signs; every conversion of a Python float '
+            'in mpmathify, operand conversion and comparisons calls it without a precision (exact); to_float '
+            'rounds to exactly 53 bits in the requested mode before ldexp, maps the specials, and resolves '
+            'overflow by the sign of the number and the size of the exponent; float()/complex() use the context '
+            'mode (half-even by default) and convert both parts alike.  That normalize1 rounds to nearest-even is '
+            'C02\'s clause; frexp/ldexp are CPython\'s.',
+            'Gradual underflow (denormals) is outside what to_float documents and is not decided.',
+            'DESIGN.md section 10 (C09)'),
 }
 
 NA_REASONS = {
